@@ -151,6 +151,15 @@ class SymReal(object):
                     return SymInt(c=Fraction(0)) if (x.is_int and y.is_int) else SymReal(c=Fraction(0))
                 if x.c == 1:
                     return _promote(y, x)
+        if self.c is None and b.c is None and _CTX is not None and _CTX.options.get('mul') == 'abstract':
+            # uninterpreted (commutative) product: sound over-approximation for properties that do not depend on it
+            x, y = self.rt, b.rt
+            if x.get_id() > y.get_id():
+                x, y = y, x
+            r = uf('umul', 2)(x, y)
+            if x.eq(y):
+                _CTX.add(z3.And(r >= 0, (r == 0) == (x == 0)))
+            return SymReal(r)
         return self._new(b, lambda x, y: x * y, lambda x, y: x * y)
 
     __rmul__ = __mul__
@@ -260,7 +269,11 @@ class SymReal(object):
             return float('nan')
         c = ctx()
         s = c.fresh_real('sqrt')
-        c.add(z3.And(s >= 0, s * s == self.rt))
+        if c.options.get('sqrt') == 'abstract':
+            # sound over-approximation: an arbitrary value that is positive exactly when the argument is
+            c.add(z3.And(s >= 0, (s == 0) == (self.rt == 0)))
+        else:
+            c.add(z3.And(s >= 0, s * s == self.rt))
         return SymReal(s)
 
     def _unary_uf(self, name):
@@ -670,6 +683,7 @@ class Ctx(object):
         self.max_alternatives = max_alternatives
         self.deadline = None
         self.decided = {}
+        self.options = {}
         self._keep = []           # keeps decided terms alive so that AST ids are not reused
 
     # ---------------------------------------------------------------- solver plumbing
